@@ -111,6 +111,47 @@ def request(kind, top, sysm, target, gens, reuse):
     raise HarnessError('bad kind')
 
 
+def text_matches_circuit(text, desc, vectors):
+    """'each result describing the same design': the returned hierarchy text, executed by the Verilog interpreter,
+    must behave like a fresh build of the same description (None = ok / not judged, else a message)"""
+    if any(g.get('clk') is not None or g.get('enable') is not None for g in desc['groups']):
+        return None          # several clock drivers: the cycle simulator and an edge-triggered netlist differ by design
+    try:
+        mods = vlog.parse(text)
+    except vlog.VParseError:
+        return None          # C03's verdict
+    c = build(desc)
+    top = c.group_obj.get(0)
+    ins = [p.wire for p in top.inPorts]
+    outs = [p.wire for p in top.outPorts]
+    in_names = [py4hw.rtl_generation.getPortName(p) for p in top.inPorts]
+    out_names = [py4hw.rtl_generation.getPortName(p) for p in top.outPorts]
+    order = [w.name for w in ins]
+    idx = {'i%d' % k: k for k in range(len(desc['inputs']))}
+    seq = [[vec[idx[n]] & mask(desc['inputs'][idx[n]]['w']) for n in order] for vec in vectors]
+    for w, v in zip(ins, seq[0]):
+        w.put(v)
+    sim = c.sys.getSimulator()
+    try:
+        vs = vlog.Sim(mods, mods[0].name, inputs=dict(zip(in_names, seq[0])))
+    except vlog.VSimError:
+        return None
+    for t, vec in enumerate(seq):
+        for w, v in zip(ins, vec):
+            w.put(v)
+        for n, v in zip(in_names, vec):
+            vs.poke(n, v)
+        sim.clk(1)
+        vs.cycle()
+        if vs.undefined_events:
+            return None
+        py = [w.get() for w in outs]
+        vv = [vs.peek(n) for n in out_names]
+        if py != vv:
+            return 'cycle {}: the circuit drives {} but the returned text drives {} (outputs {})'.format(t + 1, py, vv, out_names)
+    return None
+
+
 def run_case(case):
     circuits = []
     for desc in case['circuits']:
@@ -148,6 +189,12 @@ def run_case(case):
             key = (ci,) + key
             can = ans if isinstance(ans, tuple) else canon(ans)
             first = c['first'].get(key)
+            if kind == 0 and not isinstance(ans, tuple):
+                vecs = [[(step[2] * 7 + step[3] * 13 + 31 * j + 5 * t) % (1 << x['w']) for j, x in enumerate(c['desc']['inputs'])]
+                        for t in range(3)]
+                bad = text_matches_circuit(ans, c['desc'], vecs)
+                if bad:
+                    return fail('text_describes_another_design', 'circuit {}: {}\n{}'.format(ci, bad, ans[:900]), cls=tags)
             if first is None:
                 c['first'][key] = (can, kind, ans)
             else:
@@ -181,6 +228,20 @@ def run_case(case):
 def cases(draw, max_nodes, max_steps):
     n = draw(st.integers(1, 3))
     circuits = [c03.under_top(draw(netlists(max_nodes=max_nodes, n_regs=(0, 3), hierarchy=3, max_w=16))) for _ in range(n)]
+    for desc in circuits:
+        # transpiled behavioural leaves with a constructor constant (different constants in one process)
+        for _ in range(draw(st.integers(0, 2))):
+            src = draw(st.sampled_from(['i%d' % k for k in range(len(desc['inputs']))] + ['n%d' % k for k in range(len(desc['nodes']))]))
+            desc['nodes'].append({'op': 'ScaleK', 'args': [src], 'w': 16, 'p': {'k': draw(st.integers(0, 9))},
+                                  'g': draw(st.integers(0, len(desc['groups']) - 1))})
+            desc['order'].append(len(desc['nodes']) - 1)
+            desc['outputs'] = sorted(set(desc['outputs'] + ['n%d' % (len(desc['nodes']) - 1)]))
+        # a sub-block clocked by a clock driver of its own (named clock whose wire is a port of the parent)
+        subs = [gi for gi, g in enumerate(desc['groups']) if gi > 0 and
+                any(netgen.is_state(nd) and _inside(desc, nd['g'], gi) for nd in desc['nodes'])]
+        if subs and draw(st.integers(0, 2)) == 0:
+            desc['inputs'].append({'w': 1})
+            desc['groups'][draw(st.sampled_from(subs))]['clk'] = {'name': 'clk_slow', 'wire': 'i%d' % (len(desc['inputs']) - 1)}
     i = st.integers(0, 40)
     steps = []
     for _ in range(draw(st.integers(2, max_steps))):
@@ -191,6 +252,14 @@ def cases(draw, max_nodes, max_steps):
         else:
             steps.append(['gen', ci, draw(i), draw(i), draw(i)])
     return {'circuits': circuits, 'steps': steps}
+
+
+def _inside(desc, g, anc):
+    while g != -1:
+        if g == anc:
+            return True
+        g = desc['groups'][g]['parent']
+    return False
 
 
 def shrink_candidates(case):
